@@ -610,6 +610,12 @@ func (u *UnaryExpression) String() string {
 
 // Type returns the type of the UnaryExpression, such as bool or num.
 func (u *UnaryExpression) Type() *Type {
+	switch u.Op {
+	case OP_MINUS:
+		return NUM_TYPE
+	case OP_BANG:
+		return BOOL_TYPE
+	}
 	return u.Right.Type()
 }
 
